@@ -344,23 +344,31 @@ class PreferenceProfile:
         Returns:
             PreferenceProfile: A PreferenceProfile object with condensed ballot list.
         """
-        weight_accumulator = {}
+        weight_accumulator: dict = {}
 
         # weightless allows for id of ballots with matching ranking/scores
+        # (keyed on the content itself: Ballot.__eq__ treats a missing score
+        # dictionary as a wildcard, so ballots cannot serve as keys here)
         for ballot in self.ballots:
             weightless_ballot = (
                 Ballot(ranking=ballot.ranking, weight=Fraction(0), scores=ballot.scores)
                 if ballot.scores
                 else Ballot(ranking=ballot.ranking, weight=Fraction(0))
             )
-            if weightless_ballot not in weight_accumulator:
-                weight_accumulator[weightless_ballot] = Fraction(0)
+            content = (
+                weightless_ballot.ranking,
+                frozenset(weightless_ballot.scores.items())
+                if weightless_ballot.scores
+                else None,
+            )
+            if content not in weight_accumulator:
+                weight_accumulator[content] = [weightless_ballot, Fraction(0)]
 
-            weight_accumulator[weightless_ballot] += ballot.weight
+            weight_accumulator[content][1] += ballot.weight
 
         new_ballot_list = [Ballot()] * len(weight_accumulator)
         i = 0
-        for ballot, weight in weight_accumulator.items():
+        for ballot, weight in weight_accumulator.values():
             if ballot.scores:
                 new_ballot_list[i] = Ballot(
                     ranking=ballot.ranking, scores=ballot.scores, weight=weight
